@@ -229,13 +229,14 @@ fn idle_close() -> SimResult {
             break;
         }
         let k = choose(3);
-        let cmd = match choose(9) {
+        let cmd = match choose(10) {
             0 | 1 => Some(HCmd::SetKeepAlive(choose(2) == 0)),
             2 => Some(HCmd::OpenStream { proto: format!("/probe/{}", 1 + choose(3)), hold: Hold::Keep }),
             3 => Some(HCmd::OpenStream { proto: format!("/probe/{}", 1 + choose(3)), hold: Hold::KeepIgnored }),
             4 => Some(HCmd::OpenStream { proto: format!("/probe/{}", 1 + choose(3)), hold: Hold::Drop }),
             5 => Some(HCmd::DropStreams),
             6 => Some(HCmd::OpenStream { proto: "/not/supported".into(), hold: Hold::Keep }),
+            7 => Some(HCmd::OpenStream { proto: format!("/probe/{}", 1 + choose(3)), hold: Hold::KeepHalfClosed }),
             _ => None,
         };
         match cmd {
@@ -331,7 +332,7 @@ fn idle_close() -> SimResult {
                 let f = &mut st[*tag as usize - 1];
                 f.pending_out = f.pending_out.saturating_sub(1);
                 match hold {
-                    Hold::Keep => f.held_counting += 1,
+                    Hold::Keep | Hold::KeepHalfClosed => f.held_counting += 1,
                     Hold::KeepIgnored => f.held_ignored += 1,
                     Hold::Drop => {}
                 }
